@@ -493,6 +493,26 @@ fn vectors(thorough: bool) -> Vec<(String, Vec<bool>)> {
         }
         v.push((format!("one-every-{g}(len {len}) with a dense block of 3000 bits in the middle"), m));
     }
+    // (f) average gaps at the boundaries between the span classes of the selection structures: Select9
+    // classifies an inventory entry (512 ones) by its span in 4-word units (classes ..1, 2..=15, 16..=127,
+    // 128..=255, 256..=511, 512..), i.e. average gaps of 7.75, 63.75, 127.75, 255.75 bits; the adaptive
+    // selectors switch subinventory width when an entry spans 2^16 bits (gap 16 with 4096 ones per entry,
+    // 2048 with 32). Ones are placed at floor(i * gap) + offset, so consecutive entries have spans just
+    // below / at / above the boundary and ends that are not aligned to 4 words.
+    for (num, den) in [(15usize, 2usize), (31, 4), (8, 1), (127, 2), (255, 4), (64, 1), (255, 2), (511, 4), (128, 1), (511, 2), (1023, 4), (256, 1), (16, 1), (33, 2), (31, 2), (2047, 1), (2048, 1)] {
+        let ones_wanted = if num / den >= 1024 { 200 } else { 1700 };
+        for offset in [0usize, 100, 191] {
+            let len = ones_wanted * num / den + offset + 70;
+            let mut b = vec![false; len];
+            for i in 0..ones_wanted {
+                b[i * num / den + offset] = true;
+            }
+            v.push((format!("gap {num}/{den} x {ones_wanted} ones, offset {offset}"), b.clone()));
+            if offset == 100 {
+                v.push((format!("inverse of gap {num}/{den} x {ones_wanted} ones, offset {offset}"), b.iter().map(|x| !x).collect()));
+            }
+        }
+    }
     // exact multiples of an inventory quantum followed by a ragged tail
     for q in [4096usize, 8192] {
         for extra in [0usize, 1, 100] {
